@@ -363,6 +363,17 @@ def gen_bdesign(r, size=2):
             pair = want_pairs and n == 0 and not target_bports(design, of) and r.random() < 0.45
             md["insts"].append(dict(name=f"i{ii}", n=n, pair=bool(pair), of=of, conns=[]))
         single = [x for x in md["insts"] if x["n"] == 0 and not x["pair"]]
+        msites = []
+
+        def ncsite(named=True):
+            """a no-connect: a new NoConn object, or (shared) one already used in this module"""
+            if msites and r.random() < 0.3:
+                design["marks"].append("shared_nc")
+                return r.choice(msites)
+            site[0] += 1
+            e = ["nc", site[0], r.choice([None, None, f"nc{site[0]}"]) if named else None]
+            msites.append(e)
+            return e
 
         def bref_cands(x, k):
             return [["ref", y["name"], q] for y in single if y is not x for q, j in target_bports(design, y["of"]) if j == k]
@@ -404,10 +415,11 @@ def gen_bdesign(r, size=2):
                     if u < 0.3 and diff_idx is not None and w == 1:
                         x["conns"].append([port, r.choice(diffs) if diffs and r.random() < 0.7 else ["bun", new_bundle(diff_idx), []]])
                     elif u < 0.55:
-                        x["conns"].append([port, ["anon", [["p", sexpr(w)], ["n", sexpr(w)]], r.choice(["kw", "dict", "bundlize"])]])
+                        pn = [["p", sexpr(w)], ["n", sexpr(w)]]
+                        r.shuffle(pn)       # written in either order: members are matched by name
+                        x["conns"].append([port, ["anon", pn, r.choice(["kw", "dict", "bundlize"])]])
                     elif u < 0.65:
-                        site[0] += 1
-                        x["conns"].append([port, ["nc", site[0], None]])
+                        x["conns"].append([port, list(ncsite())])
                     else:
                         x["conns"].append([port, sexpr(w)])
                     continue
@@ -416,8 +428,7 @@ def gen_bdesign(r, size=2):
                     y, q = r.choice(others)
                     x["conns"].append([port, ["ref", y, q]])
                 elif u < 0.22:
-                    site[0] += 1
-                    x["conns"].append([port, ["nc", site[0], r.choice([None, None, f"nc{site[0]}"])]])
+                    x["conns"].append([port, list(ncsite())])
                 elif is_single and u < 0.26:
                     x["conns"].append([port, None])
                 else:
@@ -426,8 +437,7 @@ def gen_bdesign(r, size=2):
             for port, k in target_bports(design, x["of"]):
                 u = r.random()
                 if u < 0.13:
-                    site[0] += 1
-                    x["conns"].append([port, ["nc", site[0], r.choice([None, None, f"nc{site[0]}"])]])
+                    x["conns"].append([port, list(ncsite())])
                 elif is_single and u < 0.2:
                     x["conns"].append([port, None])
                 else:
@@ -480,7 +490,7 @@ def features(design):
                        "anon_sig", "anon_slice", "anon_concat", "anon_inst", "anon_subref", "anon_nested", "anon_portref", "anon_dict",
                        "bundle_portref", "bundle_unconnected_referenced", "bundle_nc", "array_bundle_port", "array_bundle_nc",
                        "array_anon_per_element", "pair_diff", "pair_anon", "pair_scalar", "pair_nc", "top_bundle_port",
-                       "coincide_in_def", "coincide_scalar", "coincide_bundle", "bundle_port_internal_inst", "hier"], False)
+                       "coincide_in_def", "coincide_scalar", "coincide_bundle", "bundle_port_internal_inst", "hier", "shared_nc"], False)
     used = set()
 
     def use(k):
@@ -717,7 +727,7 @@ TARGETS = ["nested", "flipped", "roles", "subbundle_ref", "member_ref", "sliced_
            "anon_sig", "anon_slice", "anon_concat", "anon_inst", "anon_subref", "anon_nested", "anon_portref", "anon_dict",
            "bundle_portref", "bundle_unconnected_referenced", "bundle_nc", "array_bundle_port", "array_bundle_nc",
            "array_anon_per_element", "pair_diff", "pair_anon", "pair_scalar", "pair_nc", "top_bundle_port",
-           "coincide_in_def", "coincide_scalar", "coincide_bundle", "hier"]
+           "coincide_in_def", "coincide_scalar", "coincide_bundle", "hier", "shared_nc"]
 
 
 def report(run, stream, bad, designs, outs):
@@ -738,6 +748,15 @@ def report(run, stream, bad, designs, outs):
 
 def run_streams(run, tier, seed):
     quick = tier == "quick"
+    # the theorems of Props/C01B.v count as obligations of C01 as well
+    names, current = core.props_obligations("C01B")
+    run.coverage["theorems"] = list(run.coverage.get("theorems", [])) + names
+    run.coverage["obligations"] = run.coverage.get("obligations", 0) + len(names)
+    if getattr(run, "build_ok", False) and current:
+        run.coverage["discharged"] = run.coverage.get("discharged", 0) + len(names)
+    else:
+        run.build_ok = False
+        run.build_log = getattr(run, "build_log", "") + "\nProps/C01B.vo is missing or older than its source"
     # corpus
     cs = corpus()
     outs, bad = evaluate(cs, "bcorpus")
